@@ -31,10 +31,20 @@ ELIG = [0.0, 1.0, 50.0, 1e4]
 DTS = [1.0, 0.25, 1 / 12, 1 / 365]
 
 
+THOROUGH = dict(
+    SPEND=[0.0, 0.5, 1.0, 10.0, 49.0, 50.0, 51.0, 99.0, 100.0, 101.0, 499.0, 500.0, 501.0, 1e3, 1e4, 1e6, 1e9],
+    UC=[0.01, 0.5, 1.0, 2.0, 10.0, 1e3],
+    ELIG=[0.0, 1e-9, 0.5, 1.0, 49.0, 50.0, 51.0, 100.0, 1e4, 1e8],
+    CAPC=[None, ("year", 50.0), ("abs", 50.0), ("year", 0.0), ("abs", 1e9), ("year", 1.0)],
+    SAT=[None, 0.1, 0.5, 0.9, 0.999, 1.0, 1.5, 2.0, 10.0],
+)
+
+
 def cases(tier):
     dts = DTS if tier == "thorough" else DTS[:3]
-    for oneoff, capc, sat in itertools.product([True, False], CAPC, SAT):
-        yield dict(kind="grid", oneoff=oneoff, capc=capc, sat=sat, dts=dts)
+    capcs, sats = (THOROUGH["CAPC"], THOROUGH["SAT"]) if tier == "thorough" else (CAPC, SAT)
+    for oneoff, capc, sat in itertools.product([True, False], capcs, sats):
+        yield dict(kind="grid", oneoff=oneoff, capc=capc, sat=sat, dts=dts, tier=tier)
     for oneoff in (True, False):
         for subset in itertools.product([False, True], repeat=3):
             for dt in dts:
@@ -66,6 +76,7 @@ def run_grid(case):
     n = nontriv = pairs = 0
     t = 2020.0
     per_year = {}
+    SPEND, UC, ELIG = (THOROUGH["SPEND"], THOROUGH["UC"], THOROUGH["ELIG"]) if case.get("tier") == "thorough" else (globals()["SPEND"], globals()["UC"], globals()["ELIG"])
     for dt in case["dts"]:
         cov = {}
         for uc in UC:
